@@ -47,8 +47,12 @@ def snap_index(ix):
 
 
 def snap_block(a):
+    w = bool(a.flags.writeable) if isinstance(a, np.ndarray) else True
     a = np.asarray(a)
-    return (str(a.dtype), tuple(a.shape), a.tobytes())
+    # dtype, shape, contents, and whether the caller may still write into the
+    # block (a call that flips an operand's block to read-only has changed
+    # what later legal operations on that operand do)
+    return (str(a.dtype) + ("" if w else ":readonly"), tuple(a.shape), a.tobytes())
 
 
 def raw_phases(x):
@@ -356,8 +360,8 @@ def snap_close(s1, s2, rtol=1e-12, atol=1e-13):
                 return f"[{i}] {r}"
         return None
     if k == "S":
-        a = np.frombuffer(s1[2], dtype=s1[1])
-        b = np.frombuffer(s2[2], dtype=s2[1])
+        a = np.frombuffer(s1[2], dtype=s1[1].split(":")[0])
+        b = np.frombuffer(s2[2], dtype=s2[1].split(":")[0])
         if s1[1] != s2[1]:
             return f"scalar dtype {s1[1]} vs {s2[1]}"
         return None if _close(a, b, rtol, atol) else "scalar value"
@@ -373,8 +377,8 @@ def snap_close(s1, s2, rtol=1e-12, atol=1e-13):
         for (sec, (dt1, sh1, by1)), (_, (dt2, sh2, by2)) in zip(b1, b2):
             if dt1 != dt2 or sh1 != sh2:
                 return f"block {sec}: {dt1}{sh1} vs {dt2}{sh2}"
-            x = np.frombuffer(by1, dtype=dt1)
-            y = np.frombuffer(by2, dtype=dt2)
+            x = np.frombuffer(by1, dtype=dt1.split(":")[0])
+            y = np.frombuffer(by2, dtype=dt2.split(":")[0])
             if not _close(x, y, rtol, atol):
                 return f"values at sector {sec}"
         return None
